@@ -38,12 +38,26 @@ var ckinds = []struct {
 type concase struct {
 	H     []int `json:"handlers"`
 	Hooks int   `json:"hooks"` // as in kcase
+	// Three: three publishers instead of two, publishing through an interface-typed type
+	// parameter (PublishContext[any]): while one is inside a Sequential handler two more wait
+	// for it, each with its own context
+	Three bool `json:"three_publishers_through_any,omitempty"`
+	// Setters: no hooks at construction; two tasks install the legacy before hook and the
+	// legacy after hook with the setters at the same time, then one publish is made: both
+	// setters have returned, both hooks run
+	Setters bool `json:"hooks_installed_by_two_setters_at_once,omitempty"`
 }
 
 func (c concase) String() string {
 	var hs []string
 	for _, x := range c.H {
 		hs = append(hs, ckinds[x].name)
+	}
+	if c.Setters {
+		return fmt.Sprintf("two setters at once [%s]", strings.Join(hs, " "))
+	}
+	if c.Three {
+		return fmt.Sprintf("three publishers through any [%s] hooks=%04b", strings.Join(hs, " "), c.Hooks)
 	}
 	return fmt.Sprintf("two publishers [%s] hooks=%04b", strings.Join(hs, " "), c.Hooks)
 }
@@ -92,16 +106,41 @@ func (in *conInst) Body() {
 			in.rec.Add("exit", i, id, "")
 		}, nil, ckinds[kd].o)
 	}
-	for id := 1; id <= 2; id++ {
+	if in.c.Setters {
+		vrt.Go(func() { bus.SetBeforePublishHook(hook("before")) })
+		vrt.Go(func() { bus.SetAfterPublishHook(hook("after")) })
+		vrt.Join()
+		in.rec.Add("call", 1, 0, "")
+		A.PubCtx(bus, context.WithValue(context.Background(), ctxKey{}, "v1"), 1)
+		in.rec.Add("ret", 1, 0, "")
+		bus.Wait()
+		return
+	}
+	for id := 1; id <= in.npub(); id++ {
 		id := id
 		vrt.Go(func() {
 			in.rec.Add("call", id, 0, "")
-			A.PubCtx(bus, context.WithValue(context.Background(), ctxKey{}, fmt.Sprintf("v%d", id)), id)
+			ctx := context.WithValue(context.Background(), ctxKey{}, fmt.Sprintf("v%d", id))
+			if in.c.Three {
+				A.PubAny(bus, ctx, id)
+			} else {
+				A.PubCtx(bus, ctx, id)
+			}
 			in.rec.Add("ret", id, 0, "")
 		})
 	}
 	vrt.Join()
 	bus.Wait()
+}
+
+func (in *conInst) npub() int {
+	switch {
+	case in.c.Setters:
+		return 1
+	case in.c.Three:
+		return 3
+	}
+	return 2
 }
 
 func (in *conInst) Trace() string   { return in.rec.String() }
@@ -119,7 +158,11 @@ func (in *conInst) Check(res *vrt.Result) []vrt.Violation {
 	}
 	evs := in.rec.Events()
 	onceRuns := map[int]int{}
-	for id := 1; id <= 2; id++ {
+	hooksWanted := in.c.Hooks
+	if in.c.Setters {
+		hooksWanted = 5 // legacy before and legacy after
+	}
+	for id := 1; id <= in.npub(); id++ {
 		val := fmt.Sprintf("v%d", id)
 		call, ret := h.Index(evs, "call", id, 0), h.Index(evs, "ret", id, 0)
 		firstEnter, lastSyncExit := -1, -1
@@ -168,7 +211,7 @@ func (in *conInst) Check(res *vrt.Result) []vrt.Violation {
 			}
 		}
 		for bit, name := range []string{"before", "beforeCtx", "after", "afterCtx"} {
-			if in.c.Hooks&(1<<bit) == 0 {
+			if hooksWanted&(1<<bit) == 0 {
 				continue
 			}
 			n, p := 0, -1
@@ -197,7 +240,7 @@ func (in *conInst) Check(res *vrt.Result) []vrt.Violation {
 		}
 	}
 	for i, n := range onceRuns {
-		if n != 1 {
+		if n != 1 && !in.c.Setters {
 			bad("delivery", fmt.Sprintf("the %s handler ran %d times over two concurrent publishes (want exactly 1)", ckinds[in.c.H[i]].name, n))
 		}
 	}
@@ -223,6 +266,12 @@ func concases(thorough bool) []concase {
 			}
 		}
 	}
+	// three publishers through an interface-typed type parameter on context-aware handlers
+	for _, hs := range [][]int{{3}, {1}, {3, 1}} {
+		l = append(l, concase{H: hs, Three: true})
+	}
+	// the two legacy hooks installed by two setters at the same time
+	l = append(l, concase{H: []int{0}, Setters: true}, concase{H: []int{}, Setters: true})
 	return l
 }
 
